@@ -118,8 +118,17 @@ def typeDefOk : TypeDef → Bool
       (live.map (fun v => variantName v rule)).all isIdent && decide (live.map (fun v => variantName v rule)).Nodup
     else live.all (variantOk rulef)
   | .transparent _ _ => true
+  | .enumRepr _ _ _ _ _ _ _ _ => false      -- the other representations are outside this theorem
 
 def DeriveEnvOk (env : DEnv) : Prop := ∀ td ∈ env, typeDefOk td = true
+
+theorem recordOf_some {pn : PName} {al : Option (List PName)} {doc : Option Bytes} {fs : List (FieldHdr × PSchema)} {attrs : Attrs}
+    {n n' : List PName} {s : PSchema} (h : recordOf pn al doc fs attrs n = some (s, n')) :
+    s = .record pn al doc fs attrs ∧ n' = n := by
+  unfold recordOf at h
+  split at h
+  · simp at h; exact ⟨h.1.symm, h.2.symm⟩
+  · simp at h
 
 /-- every schema `go` returns is well formed -/
 def GoodD (go : List PName → Option Bytes → TyExpr → DOut) : Prop :=
@@ -273,8 +282,9 @@ theorem deriveVariant_wf (go : List PName → Option Bytes → TyExpr → DOut) 
       | none => simp [hr] at h
       | some r2 =>
         obtain ⟨fs, n2⟩ := r2
-        simp [hr] at h
-        rw [← h.1]
+        simp only [hr] at h
+        obtain ⟨hs, _⟩ := recordOf_some h
+        subst hs
         obtain ⟨hl, hw⟩ := deriveTupleFields_record_wf go dflt hg tys named ns fs n2 hr
         simp [wfP, hpn, hl, hw]
     | struct fields =>
@@ -284,8 +294,9 @@ theorem deriveVariant_wf (go : List PName → Option Bytes → TyExpr → DOut) 
       | none => simp [hr] at h
       | some r2 =>
         obtain ⟨fs, n2⟩ := r2
-        simp [hr] at h
-        rw [← h.1]
+        simp only [hr] at h
+        obtain ⟨hs, _⟩ := recordOf_some h
+        subst hs
         obtain ⟨hl, hw⟩ := deriveFields_record_wf go goF dflt hg _ fields named ns fs n2 hr hok'
         simp [wfP, hpn, hl, hw]
 
@@ -369,6 +380,7 @@ theorem deriveTy_good (env : DEnv) (henv : DeriveEnvOk env) : ∀ fuel, GoodD (d
       | some td =>
         have htd := henv td (find_mem hf)
         cases td with
+        | enumRepr repr i name doc aliases rule rulef variants => simp [typeDefOk] at htd
         | transparent i fields =>
           simp only [hf] at h
           cases ht : transparentField fields with
@@ -392,8 +404,9 @@ theorem deriveTy_good (env : DEnv) (henv : DeriveEnvOk env) : ∀ fuel, GoodD (d
                 | none => simp [hr] at h
                 | some r2 =>
                   obtain ⟨fs, n2⟩ := r2
-                  simp [hr] at h
-                  rw [← h.1]
+                  simp only [hr] at h
+                  obtain ⟨hs, _⟩ := recordOf_some h
+                  subst hs
                   obtain ⟨hl, hw⟩ := deriveFields_record_wf _ _ _ ih rule fields _ _ fs n2 hr (by simpa [typeDefOk] using htd)
                   simp [wfP, hpn, hl, hw]
         | «enum» i name doc aliases rule rulef variants =>
